@@ -10,7 +10,7 @@ RULE = ("Mode G: every validated model of the raw families and every connective 
         "real constructors) whose asserted polyhedron has <=14 columns -> to_ge_polyhedron(active=True) x ALL in-bounds integer points of "
         "the column box (auxiliary columns free in {0,1}). oracle: (a) every leaf assignment with reference truth 1 is the leaf part of a "
         "feasible point (nothing lost); (b) for models in solver-safe form (real structure) every feasible point's leaf part has reference "
-        "truth 1 and evaluate()==1. Spurious points of non-solver-safe models are counted, not flagged. non-trivial = distinct model with "
+        "truth 1 and evaluate()==1. Columns wider than 22 values (16-, 25- and 31-bit leaves) are covered by a region grid (around 0 and both extremes) instead of the whole box; every fifth model is built over leaves of a subclass of puan.variable. Spurious points of non-solver-safe models are counted, not flagged. non-trivial = distinct model with "
         "both feasible and infeasible points")
 ASSUMPTIONS = [
     "filter errors()==[]; models with a pre-fixed compound are outside the statement",
